@@ -141,7 +141,8 @@ struct Driver {
 		return j.str();
 	}
 	// true if a section (operation form, element type) has to be enumerated at all
-	bool want(std::string const& form, char const* tc) const { return mode != REPLAY || replay.rfind(form + "/" + tc + "/", 0) == 0; }
+	bool want(std::string const& form, char const* tc) const { return mode == REPLAY ? replay.rfind(form + "/" + tc + "/", 0) == 0 : (only.empty() || form.rfind(only, 0) == 0); }
+	std::string only;                 // --only=<form prefix>: restrict the run to some sections (diagnostics; the driver never passes it)
 
 	// tag: the sizes of the configuration packed into a number (lets a replay skip most configurations without building their description)
 	template<class DescF, class ExecF> void step(long tag, bool nontriv, DescF&& descf, ExecF&& exec) {
@@ -158,7 +159,7 @@ struct Driver {
 		}
 		if(g % nshards != shard) { return; }
 		if(mode == PARENT) {
-			if(nontriv && g >= next_sample && mc::R.samples.size() < 4) {
+			if(nontriv && g >= next_sample && mc::R.samples.size() < 4 && (tag % 10) >= 2 && (tag < 10 || (tag / 10) % 10 >= 2)) {   // (sizes >= 2)
 				Desc d = descf(); mc::J j; j.s("replay", d.id); for(auto const& f : d.fields) { j.s(f.first, f.second); }
 				mc::R.sample(j.str(), 4); next_sample = g + 150000;
 			}
@@ -1082,6 +1083,7 @@ int main(int argc, char** argv) {
 	mc::set_deadline(static_cast<double>(args.geti("deadline", 3000)));
 	D.init();
 	D.nshards = std::max(1L, args.geti("nshards", 1)); D.shard = args.geti("shard", 0) % D.nshards; D.batch = std::max(1L, args.geti("batch", 256));
+	D.only = args.get("only", "");
 	std::string rp = args.get("replay", args.get("replay-trace", ""));
 	if(!rp.empty()) { D.mode = Driver::REPLAY; D.replay = rp; D.repeat = args.geti("repeat", 1); g_sizes_max = 3;
 		// tag = the digits of the 4th '/'-separated component (the sizes)
